@@ -1,6 +1,6 @@
 (* C01, part 1: the reference evaluator leaves the interpreter's bookkeeping where it found it
-   (context values, input scopes up to the cursor of the innermost one, the two depth
-   counters) -- "balance by construction" of Model/RefSem.v, for EVERY program, fuel, state. *)
+   (context values, input scopes up to the cursor of the innermost one, the chain of running
+   functions, the depth of the stack registry) -- "balance by construction" of Model/RefSem.v, for EVERY program, fuel, state. *)
 From Coq Require Import List NArith ZArith Bool Lia.
 From Vy Require Import Model.Base Model.Lexer Model.Parser Model.Transpile Gen.ParserConsts
   Model.Values Model.RefSem.
@@ -15,7 +15,7 @@ Definition scopes_like (a b : list scope) : Prop :=
   end.
 
 Definition frames (s s' : state) : Prop :=
-  ctxv s' = ctxv s /\ fdepth s' = fdepth s /\ sdepth s' = sdepth s /\ scopes_like (inner s) (inner s').
+  ctxv s' = ctxv s /\ fstack s' = fstack s /\ sdepth s' = sdepth s /\ scopes_like (inner s) (inner s').
 
 Lemma scopes_like_refl a : scopes_like a a.
 Proof. destruct a as [|[l c] r]; simpl; auto. Qed.
@@ -37,7 +37,7 @@ Qed.
 
 (* a state that differs only in fields the relation does not look at *)
 Lemma frames_same a b :
-  ctxv b = ctxv a -> fdepth b = fdepth a -> sdepth b = sdepth a -> inner b = inner a -> frames a b.
+  ctxv b = ctxv a -> fstack b = fstack a -> sdepth b = sdepth a -> inner b = inner a -> frames a b.
 Proof. intros H1 H2 H3 H4. repeat split; auto. rewrite H4. apply scopes_like_refl. Qed.
 
 Ltac fsame := apply frames_same; reflexivity.
@@ -313,18 +313,21 @@ Ltac fr :=
 
 Section RStep.
   Variable cf : cfg.
-  Variable rec : list struct -> state -> xres state.
-  Variable wl : value -> list struct -> list struct -> state -> xres state.
-  Hypothesis Hrec : forall p s, keeps (rec p s) s.
-  Hypothesis Hwl : forall v c b s, keeps (wl v c b s) s.
+  Variable rec : list struct -> state -> fres.
+  Variable wl : value -> list struct -> list struct -> state -> fres.
+  Hypothesis Hrec : forall p s, keeps2 (rec p s) s.
+  Hypothesis Hwl : forall v c b s, keeps2 (wl v c b s) s.
 
-  Lemma keeps2_r_lambda c popped s : keeps2 (r_lambda rec c popped s) s.
+  Lemma keeps2_norm r s : keeps r s -> keeps2 (norm r) s.
+  Proof. destruct r; simpl; auto. Qed.
+
+  Lemma keeps2_r_lambda self c popped s : keeps2 (r_lambda rec self c popped s) s.
   Proof.
-    unfold r_lambda, with_stack, with_locals, with_function, with_context, with_scope, with_registered, bracket. simpl.
-    match goal with |- context [rec (c_body c) ?S0] => pose proof (Hrec (c_body c) S0) as K; destruct (rec (c_body c) S0) as [s1| |] end;
-      simpl; try exact I.
-    destruct (pop1 s1) as [s2 r] eqn:E. simpl. apply pop1_frames in E.
-    repeat split; simpl; try reflexivity. apply scopes_like_refl.
+    unfold r_lambda, with_stack, with_locals, with_this, with_function, with_context, with_scope, with_registered, bracket. simpl.
+    match goal with |- context [rec (c_body c) ?S0] => destruct (rec (c_body c) S0) as [[g s1]| |] end; simpl; try exact I.
+    destruct g; simpl; try exact I.
+    - destruct (pop1 s1) as [s2 r]. simpl. repeat split; simpl; try reflexivity. apply scopes_like_refl.
+    - repeat split; simpl; try reflexivity. apply scopes_like_refl.
   Qed.
 
   Lemma pop_star_frames s s1 l : pop_star s = Some (s1, l) -> frames s s1.
@@ -351,16 +354,17 @@ Section RStep.
   Proof.
     unfold r_named. destruct (r_params (c_params c) s) as [[[s1 ps] loc]| |] eqn:E; simpl; try exact I.
     apply r_params_frames in E.
-    unfold with_stack, with_locals, with_context, with_scope, with_registered, bracket. simpl.
-    match goal with |- context [rec (c_body c) ?S0] => pose proof (Hrec (c_body c) S0) as K; destruct (rec (c_body c) S0) as [s2| |] end;
+    unfold with_stack, with_locals, with_this, with_context, with_scope, with_registered, bracket. simpl.
+    match goal with |- context [rec (c_body c) ?S0] => pose proof (Hrec (c_body c) S0) as K; destruct (rec (c_body c) S0) as [[g s2]| |] end;
       simpl; try exact I.
+    destruct g; simpl; try exact I.
     destruct K as (K1 & K2 & K3 & K4). destruct E as (E1 & E2 & E3 & E4). simpl in *.
     repeat split; simpl; try congruence; try exact E4.
   Qed.
 
   Lemma keeps2_r_app c args s : keeps2 (r_app rec c args s) s.
   Proof.
-    unfold r_app. destruct (core_ok_list true (c_body c)); [|exact I].
+    unfold r_app. destruct (body_ok c); [|exact I].
     destruct (c_named c); [|apply keeps2_r_lambda].
     unfold with_stack, bracket.
     pose proof (keeps2_r_named c (set_stk s args)) as K.
@@ -368,15 +372,18 @@ Section RStep.
     destruct fs; simpl; [exact I|]. exact K.
   Qed.
 
-  Lemma keeps_r_callstk c s : keeps (r_callstk rec c s) s.
+  Lemma keeps_r_call_on_stack self c s : keeps (r_call_on_stack rec self c s) s.
   Proof.
-    unfold r_callstk. destruct (core_ok_list true (c_body c)); [|exact I].
+    unfold r_call_on_stack. destruct (body_ok c); [|exact I].
     destruct (c_named c).
     - pose proof (keeps2_r_named c s) as K. destruct (r_named rec c s) as [[fs s1]| |]; simpl; try exact I. exact K.
     - destruct (popn (select_arity c None) s) as [s1 popped] eqn:E. apply popn_frames in E.
-      pose proof (keeps2_r_lambda c popped s1) as K.
-      destruct (r_lambda rec c popped s1) as [[r s2]| |]; simpl in *; fr.
+      pose proof (keeps2_r_lambda self c popped s1) as K.
+      destruct (r_lambda rec self c popped s1) as [[r s2]| |]; simpl in *; fr.
   Qed.
+
+  Lemma keeps_r_callstk c s : keeps (r_callstk rec c s) s.
+  Proof. apply keeps_r_call_on_stack. Qed.
 
   Lemma keeps_r_token t s : keeps (r_token cf rec t s) s.
   Proof.
@@ -388,102 +395,128 @@ Section RStep.
     - destruct (name_ok (tv t)); [|exact I]. destruct (pop1 s) as [s1 v] eqn:E. apply pop1_frames in E. simpl. exact E.
   Qed.
 
-  Lemma keeps_with_context_u v k s : (forall s0, keeps (k s0) s0) -> keeps (with_context_u v k s) s.
+  Lemma keeps2_r_break p s : keeps2 (r_break p s) s.
   Proof.
-    intro Hk. unfold with_context_u.
+    unfold r_break. destruct p as [[]|]; simpl; try exact I; try apply frames_refl.
+    destruct (pop1 s) as [s1 v] eqn:E. apply pop1_frames in E. exact E.
+  Qed.
+
+  Lemma keeps2_r_recurse p s : keeps2 (r_recurse rec p s) s.
+  Proof.
+    unfold r_recurse. destruct p as [[]|]; try exact I; try apply frames_refl.
+    - destruct (this s); [|exact I]. apply keeps2_norm. apply keeps_r_call_on_stack.
+    - destruct (nth_error (fstack s) 1) as [[c|]|]; try exact I. apply keeps2_norm. apply keeps_r_call_on_stack.
+    - destruct (nth_error (fstack s) 1) as [[c|]|]; try exact I. apply keeps2_norm. apply keeps_r_call_on_stack.
+    - destruct (nth_error (fstack s) 1) as [[c|]|]; try exact I. apply keeps2_norm. apply keeps_r_call_on_stack.
+    - apply keeps2_norm. apply keeps_vy_print.
+  Qed.
+
+  Lemma keeps2_with_context {A} v (k : state -> xres (A * state)) s :
+    (forall s0, keeps2 (k s0) s0) -> keeps2 (with_context v k s) s.
+  Proof.
+    intro Hk. unfold with_context, bracket.
     pose proof (Hk (set_ctxv s (v :: ctxv s))) as K.
-    destruct (k (set_ctxv s (v :: ctxv s))) as [s'| |]; simpl; try exact I.
+    destruct (k (set_ctxv s (v :: ctxv s))) as [[a s']| |]; simpl; try exact I.
     destruct K as (K1 & K2 & K3 & K4). simpl in *. repeat split; simpl; auto.
   Qed.
 
-  Lemma keeps_r_elif : forall n bs, (length bs <= n)%nat -> forall s, keeps (r_elif rec bs s) s.
+  Lemma keeps2_r_elif : forall n bs, (length bs <= n)%nat -> forall s, keeps2 (r_elif rec bs s) s.
   Proof.
     induction n as [|n IH]; intros bs Hlen s.
     - destruct bs; [apply frames_refl|simpl in Hlen; lia].
     - destruct bs as [|c [|b rest]]; [apply frames_refl|apply Hrec|].
-      cbn [r_elif]. pose proof (Hrec c s) as K. destruct (rec c s) as [s1| |]; simpl; try exact I.
+      cbn [r_elif]. pose proof (Hrec c s) as K. destruct (rec c s) as [[g s1]| |]; simpl; try exact I.
+      destruct g; simpl; try exact K.
       destruct (pop1 s1) as [s2 v] eqn:E. apply pop1_frames in E.
       destruct (truthy v) as [[|]|]; simpl; try exact I.
-      + eapply keeps_weaken; [|apply Hrec]. simpl in K. fr.
-      + eapply keeps_weaken; [|apply IH; simpl in *; lia]. simpl in K. fr.
+      + eapply keeps2_weaken; [|apply Hrec]. simpl in K. fr.
+      + eapply keeps2_weaken; [|apply IH; simpl in *; lia]. simpl in K. fr.
   Qed.
 
-  Lemma keeps_r_if bs s : keeps (r_if rec bs s) s.
+  Lemma keeps2_r_if bs s : keeps2 (r_if rec bs s) s.
   Proof.
     unfold r_if. destruct bs as [|a rest]; [apply frames_refl|].
     destruct (pop1 s) as [s1 v] eqn:E. apply pop1_frames in E.
     destruct (truthy v) as [[|]|]; simpl; try exact I.
-    - eapply keeps_weaken; [exact E|apply Hrec].
-    - eapply keeps_weaken; [exact E|apply (keeps_r_elif (length rest)); lia].
+    - eapply keeps2_weaken; [exact E|apply Hrec].
+    - eapply keeps2_weaken; [exact E|apply (keeps2_r_elif (length rest)); lia].
   Qed.
 
-  Lemma keeps_r_for var body items : forall s, keeps (r_for rec var body items s) s.
+  Lemma keeps2_r_for var body items : forall s, keeps2 (r_for rec var body items s) s.
   Proof.
     induction items as [|x r IH]; intro s; simpl; [apply frames_refl|].
-    match goal with |- context [with_context_u x (rec body) ?S0] =>
-      pose proof (keeps_with_context_u x (rec body) S0 (Hrec body)) as K;
-      destruct (with_context_u x (rec body) S0) as [s2| |] end; simpl; try exact I.
-    eapply keeps_weaken; [|apply IH]. destruct var; simpl in K; fr.
+    match goal with |- context [with_context x (rec body) ?S0] =>
+      pose proof (keeps2_with_context x (rec body) S0 (Hrec body)) as K;
+      destruct (with_context x (rec body) S0) as [[g s2]| |] end; simpl; try exact I.
+    assert (F : frames s s2) by (destruct var; simpl in K; fr).
+    destruct g; simpl; try exact F; (eapply keeps2_weaken; [exact F|apply IH]).
   Qed.
 
   Lemma keeps2_r_items its : forall s, keeps2 (r_items rec its s) s.
   Proof.
     induction its as [|x r IH]; intro s; simpl; [apply frames_refl|].
     unfold with_stack, with_locals, bracket. simpl.
-    match goal with |- context [rec x ?S0] => pose proof (Hrec x S0) as K; destruct (rec x S0) as [s'| |] end; simpl; try exact I.
+    match goal with |- context [rec x ?S0] => pose proof (Hrec x S0) as K; destruct (rec x S0) as [[g s']| |] end; simpl; try exact I.
+    destruct g; simpl; try exact I.
     match goal with |- context [r_items rec r ?S1] => pose proof (IH S1) as K2; destruct (r_items rec r S1) as [[vs s2]| |] end;
       simpl; try exact I.
     simpl in *. fr.
   Qed.
 
-  Lemma keeps_r_step x s : keeps (r_step cf rec wl x s) s.
+  Lemma keeps2_r_step x s : keeps2 (r_step cf rec wl x s) s.
   Proof.
     destruct x; cbn [r_step]; try exact I.
-    - apply keeps_r_token.
-    - apply keeps_r_if.
+    - apply keeps2_norm. apply keeps_r_token.
+    - apply keeps2_r_break.
+    - apply keeps2_r_recurse.
+    - apply keeps2_r_if.
     - destruct names as [|n ?].
       + destruct (pop1 s) as [s1 v] eqn:E. apply pop1_frames in E.
-        destruct (iter_range cf v); simpl; try exact I. eapply keeps_weaken; [exact E|apply keeps_r_for].
+        destruct (iter_range cf v); simpl; try exact I. eapply keeps2_weaken; [exact E|apply keeps2_r_for].
       + destruct (name_ok _); [|exact I].
         destruct (pop1 s) as [s1 v] eqn:E. apply pop1_frames in E.
-        destruct (iter_range cf v); simpl; try exact I. eapply keeps_weaken; [exact E|apply keeps_r_for].
-    - pose proof (Hrec cond s) as K. destruct (rec cond s) as [s1| |]; simpl; try exact I.
+        destruct (iter_range cf v); simpl; try exact I. eapply keeps2_weaken; [exact E|apply keeps2_r_for].
+    - pose proof (Hrec cond s) as K. destruct (rec cond s) as [[g s1]| |]; simpl; try exact I.
+      destruct g; simpl; try exact I.
       destruct (pop1 s1) as [s2 v] eqn:E. apply pop1_frames in E.
-      eapply keeps_weaken; [|apply Hwl]. simpl in K. fr.
+      eapply keeps2_weaken; [|apply Hwl]. simpl in K. fr.
     - destruct (name_ok _); [|exact I].
-      destruct (lookup_var _ s) as [[z|l|c]|]; try exact I. apply keeps_r_callstk.
+      destruct (lookup_var _ s) as [[z|l|c]|]; try exact I. apply keeps2_norm. apply keeps_r_call_on_stack.
     - destruct (name_ok _); [|exact I]. destruct (params_of params); simpl; fr.
     - simpl. fr.
-    - destruct op; try exact I;
+    - destruct op; apply keeps2_norm;
         (eapply keeps_weaken; [|apply keeps_elem_sem; [apply keeps2_r_app|apply keeps_r_callstk]]); fr.
     - pose proof (keeps2_r_items items s) as K.
       destruct (r_items rec items s) as [[vs s1]| |]; simpl in *; fr.
-    - destruct (mem m mod1_keys); [|exact I]. apply keeps_mod1; [apply keeps2_r_app|apply keeps_r_callstk].
-    - destruct (mem m mod2_keys); [|exact I]. apply keeps_mod2. apply keeps2_r_app.
+    - destruct (mem m mod1_keys); [|exact I]. apply keeps2_norm. apply keeps_mod1; [apply keeps2_r_app|apply keeps_r_callstk].
+    - destruct (mem m mod2_keys); [|exact I]. apply keeps2_norm. apply keeps_mod2. apply keeps2_r_app.
   Qed.
 
-  Lemma keeps_seq_run p : forall s, keeps (seq_run (r_step cf rec wl) p s) s.
+  Lemma keeps2_seq_run p : forall s, keeps2 (seq_run (r_step cf rec wl) p s) s.
   Proof.
     induction p as [|x r IH]; intro s; simpl; [apply frames_refl|].
-    pose proof (keeps_r_step x s) as K. destruct (r_step cf rec wl x s) as [s1| |]; simpl; try exact I.
-    eapply keeps_weaken; [exact K|apply IH].
+    pose proof (keeps2_r_step x s) as K. destruct (r_step cf rec wl x s) as [[g s1]| |]; simpl; try exact I.
+    destruct g; try exact K. eapply keeps2_weaken; [exact K|apply IH].
   Qed.
 End RStep.
 
 Lemma eval_keeps cf fuel :
-  (forall p s, keeps (eval cf fuel p s) s) /\ (forall v c b s, keeps (rloop cf fuel v c b s) s).
+  (forall p s, keeps2 (eval cf fuel p s) s) /\ (forall v c b s, keeps2 (rloop cf fuel v c b s) s).
 Proof.
   induction fuel as [|f [IH1 IH2]]; [split; intros; exact I|].
   split.
-  - intros p s. cbn [eval]. apply keeps_seq_run; assumption.
+  - intros p s. cbn [eval]. apply keeps2_seq_run; assumption.
   - intros v c b s. cbn [rloop].
     destruct (truthy v) as [[|]|]; simpl; try exact I; [|apply frames_refl].
-    pose proof (keeps_with_context_u v (eval cf f b) s (IH1 b)) as K.
-    destruct (with_context_u v (eval cf f b) s) as [s1| |]; simpl; try exact I.
-    pose proof (IH1 c s1) as K2. destruct (eval cf f c s1) as [s2| |]; simpl; try exact I.
+    pose proof (keeps2_with_context v (eval cf f b) s (IH1 b)) as K.
+    destruct (with_context v (eval cf f b) s) as [[g s1]| |]; simpl; try exact I.
+    destruct g; simpl; try exact I; try exact K.
+    pose proof (IH1 c s1) as K2. destruct (eval cf f c s1) as [[g2 s2]| |]; simpl; try exact I.
+    destruct g2; simpl; try exact I.
     destruct (pop1 s2) as [s3 v'] eqn:E. apply pop1_frames in E.
-    eapply keeps_weaken; [|apply IH2]. simpl in *. fr.
+    eapply keeps2_weaken; [|apply IH2]. simpl in *. fr.
 Qed.
 
-Theorem eval_frames cf fuel p s s' : eval cf fuel p s = XOk s' -> frames s s'.
+(* whatever way a statement list ends -- normally or by an early exit -- the bookkeeping is where it was *)
+Theorem eval_frames cf fuel p s g s' : eval cf fuel p s = XOk (g, s') -> frames s s'.
 Proof. intro H. pose proof (proj1 (eval_keeps cf fuel) p s) as K. rewrite H in K. exact K. Qed.
